@@ -20,6 +20,10 @@ def drange(start, stop, step=1):
     r = start
     while r < stop:
         yield r
+        if r + step == r:
+            # the step is below the float resolution of r (end points a few
+            # ulps apart): there is no further distinct value to generate
+            return
         r += step
 
 
